@@ -3,7 +3,15 @@ From Coq Require Import Strings.String Strings.Byte.
 From Coq Require Import List NArith.
 From Goit Require Import Bytes Regex Ignore World Repo IgnoreFacts.
 From Goit Require Import Index Inv IndexFacts BranchFacts ExactFacts SnapshotFacts IgnoreCmdFacts.
+From Goit Require Import Bridge.
 Import ListNotations.
+
+(* T0 (tie to the source): every regexp literal of the current Go source denotes
+   the same language, with the same anchoring, as the pattern of the model — proved
+   by running the verified equivalence checker on SrcRegex.v, which is regenerated
+   from /repo on every run (see Bridge.v) *)
+Theorem C17_source_patterns_are_the_models : source_patterns_agree.
+Proof. exact source_patterns. Qed.
 
 (* T1: whatever .goitignore contains, the walk of `add <dir>` / `add .` skips
    every path under .goit/ without touching the world *)
@@ -118,3 +126,4 @@ Print Assumptions C17_status_never_lists_excluded.
 Print Assumptions C17_goit_dir_never_overwritten.
 Print Assumptions C17_no_ignore_nothing_hidden.
 Print Assumptions C17_no_ignore_add_dot_stages_everything.
+Print Assumptions C17_source_patterns_are_the_models.
